@@ -16,7 +16,7 @@ RULE = ("trace level: exact correspondence of every trash-restore run with the C
         "non-directory is replaced by the payload. distinct = (dest kind, payload kind, overwrite, selection, trash dir kind).")
 ASSUMPTIONS = ["a symlink at the destination (also one pointing to a directory) is 'an existing non-directory' (DESIGN 8.21 no. 12)"]
 
-DEST = ['absent', 'file', 'emptydir', 'dir', 'link_file', 'link_dir', 'dangling']
+DEST = ['absent', 'file', 'emptydir', 'dir', 'link_file', 'link_dir', 'dangling', 'link_into_trash']
 PAY = ['f', 'd', 'l']
 
 
@@ -55,7 +55,14 @@ def table(rng, thorough):
         nodes = scen.canary() + [['d', home, 0o755], ['d', '/vol1', 0o755], ['d', '/vol1/work', 0o755], ['d', home + '/work', 0o755]]
         nodes += scen.entry(td, 'x y', pathv, '2024-01-02T00:00:00', pk)
         nodes += scen.entry(td, 'other', otherv, '2024-01-01T00:00:00' if sel == 'last' else '2024-01-03T00:00:00', 'f')
-        nodes += dest_nodes(dk, dest)
+        if dk == 'link_into_trash':
+            # a "peek" link the user made to the trashed copy itself: still something that exists at the destination (judged without
+            # --overwrite only)
+            if ow:
+                continue
+            nodes.append(['l', dest, td + '/files/x y'])
+        else:
+            nodes += dest_nodes(dk, dest)
         # date sort: 'other' is index 0 when sel == 'last' (older), index 1 otherwise
         if sel == 'single':
             reply = '1\n' if False else ('0\n' if sel != 'last' else '1\n')
@@ -146,6 +153,49 @@ def same_destination(rng):
         scns.append(scn)
         metas.append({'twice': True, 'ow': False, 'td': td, 'dest': dest, 'names': names, 'reply': reply, 'where': where, 'pks': pks})
     return scns, metas
+
+
+def nested_destinations(rng):
+    """a file and, trashed later, the directory it was in (with a newer file of the same name): both selected in one reply.  Whichever is
+    restored first creates the other one's destination - the second is refused, stays whole in the trash, and the file that came back is
+    the one restored first"""
+    scns, metas = [], []
+    home = '/home/u'
+    td = home + '/.local/share/Trash'
+    for reply, sort in itertools.product(('0,1', '1,0'), ('date', 'path')):
+        nodes = scen.canary() + [['d', home, 0o755]]
+        nodes += scen.entry(td, 'f', home + '/D/f', '2024-01-01T00:00:00', 'f', data='the older f')
+        nodes += [['f', td + '/info/D.trashinfo', scen.TI % (scen.quote(home + '/D'), '2024-01-02T00:00:00')],
+                  ['d', td + '/files/D', 0o755], ['f', td + '/files/D/f', 'the newer f'], ['f', td + '/files/D/g', 'g']]
+        scn = {'tree': nodes, 'mounts': [], 'cwd': '/', 'uid': 1000, 'env': {'HOME': home, 'TRASH_VOLUMES': '/'},
+               'steps': [{'cmd': 'restore', 'argv': ['/', '--sort', sort], 'stdin': reply + '\n'}]}
+        scns.append(scn)
+        # listing order: by date f (older) then D; by path the key is path + str(date): '/home/u/D/f2024...' < '/home/u/D2024...' ('/' < '2')
+        order = ['f', 'D']
+        metas.append({'nested': True, 'ow': False, 'td': td, 'order': order, 'reply': reply, 'sort': sort})
+    return scns, metas
+
+
+def judge_nested(run, scn, meta, res, section='nested-destination'):
+    before, o = res['before'], res['steps'][0]
+    after = o['after']
+    case = {'scenario': scn, 'meta': meta, 'exit': o['exit'], 'stderr': o['stderr'][-400:], 'stdout': o['stdout'][-300:]}
+    run.count(section)
+    sel = [meta['order'][int(i)] for i in meta['reply'].split(',')]
+    first, second = sel[0], sel[1]
+    eb, ea = engine.entries_of(before, meta['td']), engine.entries_of(after, meta['td'])
+    want_f = b'the older f' if first == 'f' else b'the newer f'
+    got = after.get('/home/u/D/f')
+    run.nontriv(('nested', meta['reply'], meta['sort'], o['exit'] != 0))
+    if got is None or got[2] != want_f:
+        run.fail('oracle', 'the file restored first was replaced by the entry restored after it in the same reply', dict(case, file_now=str(got)[:100]),
+                 key='nested-destination-clobbered', section=section)
+    if ea.get(second) != eb.get(second):
+        run.fail('oracle', 'the entry whose destination had just been created by the same run did not stay whole in the trash', case,
+                 key='nested-destination-entry-lost', section=section)
+    if o['exit'] == 0:
+        run.fail('oracle', 'restoring onto a destination created a moment ago by the same run was not refused', case,
+                 key='nested-destination-not-refused', section=section)
 
 
 def foreign_paths(rng):
@@ -241,6 +291,11 @@ def run(run, thorough):
     by3 = {id(s): m for s, m in zip(s3, m3)}
     for scn, res in out3:
         judge_foreign(run, scn, by3[id(scn)], res)
+    s4, m4 = nested_destinations(run.rng)
+    out4 = engine.run_all(run, 'restore-nested', s4)
+    by4 = {id(s): m for s, m in zip(s4, m4)}
+    for scn, res in out4:
+        judge_nested(run, scn, by4[id(scn)], res)
     s2, m2 = same_destination(run.rng)
     out2 = engine.run_all(run, 'restore-same', s2)
     by2 = {id(s): m for s, m in zip(s2, m2)}
@@ -275,7 +330,9 @@ def replay(run, payload):
     print('trash-restore', scn['steps'][0]['argv'], repr(scn['steps'][0].get('stdin')), 'exit', o['exit'])
     print(' stdout:', esc(o['stdout'][:400]))
     print(' stderr:', esc(o['stderr'][:400]))
-    if meta and meta.get('foreign'):
+    if meta and meta.get('nested'):
+        judge_nested(run, scn, meta, res)
+    elif meta and meta.get('foreign'):
         judge_foreign(run, scn, meta, res)
     elif meta and meta.get('twice'):
         judge_same(run, scn, meta, res)
